@@ -211,7 +211,21 @@ def _consts(ctx, rel):
         return None
 
 
-def run_su_coef(ctx, fn, regime, m_none, rb_given=True):
+def lib_hook(node, ev):
+    """library functions with an exact lowering that e2_eval does not list: expm1(x) = exp(x) - 1 (a cancellation-free spelling, the same value)"""
+    from .e1_srcmodel import dotted
+    from .e2_eval import is_unknown
+    if dotted(node.func) in ("np.expm1", "math.expm1") and len(node.args) == 1 and not node.keywords:
+        try:
+            a = ev.plain(ev.evr(node.args[0]))
+        except Unsupported:
+            return NotImplemented
+        if isinstance(a, F.Rat) and not is_unknown(a):
+            return F.exp(a) - 1
+    return NotImplemented
+
+
+def run_su_coef(ctx, fn, regime, m_none, rb_given=True, call=None):
     """evaluate get_su_coef for the generic mode of `regime`; -> (coefficients, parameters, evaluator)"""
     par = regime_params(regime, m_none)
     isrb = regime in ("rb", "rbd")
@@ -220,7 +234,7 @@ def run_su_coef(ctx, fn, regime, m_none, rb_given=True):
 
     inl = {k: v for k, v in module_funcs(ctx, UTIL).items() if v is not fn}
     S = Sem01(ctx, fn, ev_cls=ModeEv, env=env, inline=inl, consts=_consts(ctx, UTIL), nonnull={"h", "m"},
-              cmp=regime_oracle(regime, par), abs_hook=abs_hook)
+              cmp=regime_oracle(regime, par), abs_hook=abs_hook, call=call or lib_hook)
     ev = S.ev
     if not ev.returns and ev.raised is not None:
         raise RegimeRaises(ev.raised, ev)
@@ -258,13 +272,13 @@ def lam_oracle(regime):
     return cmp
 
 
-def run_complex_coefs(ctx, fn, regime, others=None):
+def run_complex_coefs(ctx, fn, regime, others=None, call=None):
     """SolveUnc._get_complex_su_coefs for one generic eigenvalue; -> ({Fe, Ae, Be}, evaluator).  `others`: what `np.all(x)` is when x holds for the
     generic eigenvalue (True: it holds for every other one as well, False: it fails for some other one, None: left open - a test on it is undecided)"""
     from .c01_ev import OTHERS
     inl = {k: v for k, v in helpers(ctx, (SOLVEUNC, "SolveUnc"), ("pyyeti/ode/_base_ode_class.py", "_BaseODE")).items() if v is not fn}
     S = Sem01(ctx, fn, ev_cls=ModeEv, env={"lam": F.sym("lam"), "h": F.sym("h")}, inline=inl, consts=_consts(ctx, SOLVEUNC), nonnull={"h", "lam", "pc"},
-              cmp=lam_oracle(regime), abs_hook=None, truth=None if others is None else {OTHERS: others})
+              cmp=lam_oracle(regime), abs_hook=None, truth=None if others is None else {OTHERS: others}, call=call or lib_hook)
     ev = S.ev
     pcname = [a.arg for a in fn.args.args]
     out = {}
